@@ -146,6 +146,20 @@ CLAIMED["C18"] = dict(
     design_ref="§5 C18",
 )
 
+CLAIMED["C19"] = dict(
+    category="exploration",
+    technique="bounded-exhaustive enumeration of functionals x pore geometries x sizes x solid potentials x temperatures x pressures x compositions x grids; every reported derivative is compared with Richardson differences of re-solved neighbouring profiles along every bulk direction (p, x, T)",
+    text="For every pore of the lattice (5 functionals incl. a binary mixture at two compositions x slit/cylinder/sphere x 3 sizes x LJ93/Steele/hard wall/SimpleLJ93 x 3 reduced temperatures x 2 vapour pressures x 2 grids) the profile is re-solved at p +- h, +- 2h, x +- h, +- 2h and T +- dT, +- 2dT and the Richardson differences are compared with what the solved profile reports: dOmega = -sum_i N_i dmu_i along every direction (Gibbs adsorption), dN_i = sum_k dn_dmu[k,i] dmu_k, dn_dp, dn_dt, the linear system and mole-fraction average behind the (partial molar) enthalpy of adsorption, N_i/(x_i p) at 1e-4 p against the Henry coefficients and the temperature derivative of ln(K_H T) against the ideal-gas enthalpy of adsorption. Planar interfaces: 5 functionals x 6 reduced temperatures x 4 box lengths x 3 grid sizes: surface tension independent of box and grid up to a second-order discretisation band, strictly decreasing with T, below 20 % of its 0.95 Tc value at 0.99 Tc, pDGT within 10 %.",
+    design_ref="§5 C19",
+)
+
+CLAIMED["C20"] = dict(
+    category="exploration",
+    technique="bounded-exhaustive enumeration of every shipped record with entropy-scaling coefficients x state lattice, and of every data-set type x configuration x loss x scaling factor x weight vector x residual lattice; oracles = closed forms re-implemented in the harness and the wrapped library calls",
+    text="Transport: for all 146 PC-SAFT records with viscosity coefficients (plus synthetic diffusion and thermal-conductivity coefficients, a dipolar-quadrupolar probe, default and non-default model options) and all SAFT-VRQ Mie records x 5 temperatures x 5 densities: value = reference x exp(correlation), correlation = closed form of the state's own s_res/m, references = Chapman-Enskog closed forms in SI units, positive and finite, a second state with the same s_res at 1.25 T gives the same reduced value, a binary with x2 in {1e-3, 1e-6, 1e-9} converges linearly to the pure viscosity, diffusion / thermal conductivity of mixtures are errors. Estimator: all 5 losses x 7 scaling factors x 53 residuals (both signs, around the Huber switch, 1e-8..1e6) against the cancellation-free closed form; every data-set type x configuration (vapor pressure x extrapolation x given Tc incl. supercritical temperatures, liquid and equilibrium liquid density incl. failing states, viscosity / thermal conductivity / diffusion with and without phases, binary bubble / dew pressure, chemical potential, phase-diagram distance from the model's own diagram at vertices and midpoints) x 4 pure and 3 binary models: predict = library call in the data set's unit, model-generated targets give zero relative difference, cost (9 losses) and MARD, perturbed targets reproduce the definitions; Estimator: 4 weight vectors x 9 loss assignments: cost = normalised weights x data-set cost, invariant under weight scaling, add_data = new, predict / relative difference / MARD equal the per-data-set values.",
+    design_ref="§5 C20",
+)
+
 NOT_YET = "check not built yet (work in progress; see DESIGN.md §9 build order) - not a claim that the technique cannot apply"
 
 ALL = ["C%02d" % i for i in range(1, 21)]
